@@ -8,6 +8,7 @@ import (
 	"bytes"
 	"flag"
 	"fmt"
+	"io"
 	"math/rand"
 	"net/url"
 	"reflect"
@@ -454,6 +455,27 @@ func formGarbageCase(cfg *RunCfg, st *Stats, w *CaseWriter, idx int, distinct Di
 		distinct.Add(in)
 		return
 	}
+	if r.Intn(25) == 0 {
+		// pointer to an interface: *io.Reader (url.Values not assignable), **interface{} (assignable)
+		assignable := r.Intn(2) == 0
+		st.Count(fmt.Sprintf("formdec:into-interface-%v", assignable))
+		var rd io.Reader
+		var e interface{}
+		pe := &e
+		var dst interface{} = &rd
+		if assignable {
+			dst = &pe
+		}
+		do, msg := guardedUnmarshal(formC, data, dst)
+		if do == oPanic {
+			st.Fail(idx, "form-decode-panic", "form decoder panicked: "+msg, fmt.Sprintf("%q into %T", data, dst))
+		}
+		got, _ := e.(url.Values)
+		in := VL(VS("formdec"), VL(VS("iface"), VBool(assignable)), VB(data))
+		w.Add(in, decObs(do, descValues(got)))
+		distinct.Add(in)
+		return
+	}
 	st.Count("formdec:" + ft.name)
 	dst := reflect.New(ft.typ)
 	if r.Intn(4) == 0 {
@@ -498,7 +520,11 @@ func mkPlainDst(r *rand.Rand, t reflect.Type, fill bool) plainDst {
 }
 
 func randPlainDst(r *rand.Rand) plainDst {
-	switch r.Intn(16) {
+	switch r.Intn(18) {
+	case 16:
+		return plainDst{(*string)(nil), VS("dstrnil"), func() string { return VS("nil") }}
+	case 17:
+		return plainDst{(*[]byte)(nil), VS("dbytesnil"), func() string { return VS("nil") }}
 	case 0:
 		return plainDst{nil, VS("nil"), func() string { return VS("nil") }}
 	case 1:
